@@ -255,7 +255,9 @@ class GateCompiler(object):
                 compiled_tlist[pulse_ind].append(execution_time)
                 compiled_coeffs[pulse_ind].append(coeffs)
 
-        final_time = np.max([tlist[-1][-1] for tlist in compiled_tlist])
+        # channels (or whole gate lists) without any pulse are left empty
+        end_times = [tlist[-1][-1] for tlist in compiled_tlist if tlist]
+        final_time = np.max(end_times) if end_times else 0.0
         for pulse_ind in range(num_controls):
             if not compiled_tlist[pulse_ind]:
                 continue
